@@ -9,6 +9,7 @@ import (
 	"os"
 	"os/exec"
 	"path/filepath"
+	"runtime"
 	"strings"
 	"sync"
 	"time"
@@ -77,7 +78,7 @@ func smtText(c *Ctx, o *Obligation) string {
 	return b.String()
 }
 
-var procSem = make(chan struct{}, 14)
+var procSem = make(chan struct{}, max(3, runtime.NumCPU()-2))
 
 type solverHint struct {
 	solver  string
